@@ -1,5 +1,200 @@
 import Driver.Common
-/-! Driver for C05 (stub: not built yet). -/
-def main (_args : List String) : IO UInt32 := do
-  IO.eprintln "C05: driver not implemented"
-  return 2
+import CoapVerif.Model.Dedup
+import CoapVerif.Spec.Dedup
+/-!
+Driver for C05.  One scenario per line (ops separated by `|`, see harness/c05/c05_test.go).
+`model` prints what the model predicts, one segment `h=… s=…` per op; `judge` takes
+`<scenario> || <observed segments>` and evaluates the specification's judge on the observed history.
+-/
+namespace Driver.C05
+open CoapVerif CoapVerif.Spec.Dedup CoapVerif.Model.Dedup
+
+def fmtMType : MType → String
+  | .con => "con" | .non => "non" | .ack => "ack" | .rst => "rst"
+
+def fmtOpts (o : List (Nat × List UInt8)) : String :=
+  if o.isEmpty then "-" else "+".intercalate (o.map (fun p => s!"{p.1}={toHex p.2}"))
+
+def fmtDgram (d : Dgram) : String :=
+  s!"{fmtMType d.typ}:{d.code}:{d.mid}:{toHex d.tok}:{fmtOpts d.opts}:{toHex d.pay}"
+
+def insertSorted [Ord α] (lt : α → α → Bool) (x : α) : List α → List α
+  | [] => [x]
+  | y :: r => if lt y x then y :: insertSorted lt x r else x :: y :: r
+
+def sortBy [Ord α] (lt : α → α → Bool) (l : List α) : List α := l.foldl (fun acc x => insertSorted lt x acc) []
+
+def fmtSeg (ran : List Nat) (sent : List Dgram) : String :=
+  let h := if ran.isEmpty then "-" else ",".intercalate ((sortBy (fun a b => a < b) ran).map toString)
+  let ds := sortBy (fun (a b : String) => a < b) (sent.map fmtDgram)
+  let s := if ds.isEmpty then "-" else ",".intercalate ds
+  s!"h={h} s={s}"
+
+def parseRType : String → Option RType
+  | "con" => some .con | "non" => some .non | _ => none
+
+def parseBeh : String → Option Beh
+  | "pb" => some .pb | "pbe" => some .pbe | "none" => some .none | "sep" => some .sep
+  | "empty" => some .empty | "blk" => some .blk | _ => none
+
+/-- An op of the scenario line, expanded into the model events it stands for. -/
+inductive Op
+  | own (getmid : Nat)
+  | recv (typ : RType) (mid : Nat) (tok : List UInt8) (beh : Beh)
+  | par (k : Nat) (typ : RType) (mid : Nat) (tok : List UInt8) (beh : Beh)
+  | blk (typ : RType) (mid : Nat) (tok : List UInt8) (dur k : Nat) (dtyp : RType)
+  | sleep (d : Nat)
+  | tick
+  | flush
+
+def parseOp (s : String) : Option Op :=
+  match words s with
+  | ["own", g] => g.toNat?.map .own
+  | ["recv", t, m, tok, b] => do
+    some (.recv (← parseRType t) (← m.toNat?) (← parseHex? tok) (← parseBeh b))
+  | ["par", k, t, m, tok, b] => do
+    some (.par (← k.toNat?) (← parseRType t) (← m.toNat?) (← parseHex? tok) (← parseBeh b))
+  | ["blk", t, m, tok, d, k, dt] => do
+    some (.blk (← parseRType t) (← m.toNat?) (← parseHex? tok) (← d.toNat?) (← k.toNat?) (← parseRType dt))
+  | ["sleep", d] => d.toNat?.map .sleep
+  | ["tick"] => some .tick
+  | ["flush"] => some .flush
+  | _ => none
+
+def opEvents : Op → List Ev
+  | .own _ => []
+  | .recv t m tok b => [.recv t m tok b 0]
+  | .par k t m tok b => List.replicate k (.recv t m tok b 0)
+  | .blk t m tok d k dt => .recv t m tok .blk d :: List.replicate k (.recv dt m tok .blk 0)
+  | .sleep d => [.sleep d]
+  | .tick => [.tick]
+  | .flush => [.flush]
+
+def parseOps (line : String) : Option (List Op) := (line.splitOn "|").mapM parseOp
+
+def initOf (ops : List Op) : State :=
+  match ops with
+  | .own g :: _ => init (initMsgID g Generated.Dedup.midInitOffset)
+  | _ => init (initMsgID 0 Generated.Dedup.midInitOffset)
+
+/-- Copies injected concurrently (`par`, `blk`) pass `checkMyMessageID` in an order relative to the handling of
+    the other copies that the Go scheduler chooses; the outcome of the guard test can depend on it when the
+    own counter is within a few steps of the guard distance.  Such scenarios are marked, and the check does not
+    compare own message IDs for them (the judge is still applied to the implementation). -/
+def guardFlips (mid m0 bound : Nat) : Bool :=
+  let test := fun m => decide (u16 (mid + 65536 - u16 m) ≥ params.midGuard)
+  (List.range (bound + 1)).any (fun x => test (u32 (m0 + x)) != test m0)
+
+def opAmbiguous (s : State) : Op → Bool
+  | .par k .con mid _ _ => guardFlips mid s.msgID (4 * (k + 2))
+  | .blk t mid _ _ k dt => (t == .con || dt == .con) && guardFlips mid s.msgID (4 * (k + 3))
+  | _ => false
+
+def model (line : String) : String :=
+  match parseOps line with
+  | none => "bad-op"
+  | some ops =>
+    let (_, segs, amb) := ops.foldl (fun (acc : State × List String × Bool) op =>
+      let (s, ran, sent) := (opEvents op).foldl (fun (a : State × List Nat × List Dgram) e =>
+        let (s', o) := step params a.1 e
+        (s', a.2.1 ++ o.ran, a.2.2 ++ o.sent)) (acc.1, [], [])
+      (s, acc.2.1 ++ [fmtSeg ran sent], acc.2.2 || opAmbiguous acc.1 op)) (initOf ops, [], false)
+    (if amb then "ambiguous " else "") ++ " | ".intercalate segs
+
+/-! ### parsing observations -/
+
+def parseMType : String → Option MType
+  | "con" => some .con | "non" => some .non | "ack" => some .ack | "rst" => some .rst | _ => none
+
+def parseOpts (s : String) : Option (List (Nat × List UInt8)) :=
+  if s = "-" then some [] else
+  (s.splitOn "+").mapM (fun p => match p.splitOn "=" with
+    | [i, v] => do some ((← i.toNat?), (← parseHex? v))
+    | _ => none)
+
+def parseDgram (s : String) : Option Dgram :=
+  match s.splitOn ":" with
+  | [t, c, m, tok, o, p] => do
+    some ⟨← parseMType t, ← c.toNat?, ← m.toNat?, ← parseHex? tok, ← parseOpts o, ← parseHex? p⟩
+  | _ => none
+
+def parseSeg (s : String) : Option (List Nat × List Dgram) :=
+  match words s with
+  | [h, d] =>
+    if !(h.startsWith "h=") || !(d.startsWith "s=") then none else
+    let hs := (h.drop 2).toString
+    let ds := (d.drop 2).toString
+    do
+      let ran ← if hs = "-" then some [] else (hs.splitOn ",").mapM (·.toNat?)
+      let sent ← if ds = "-" then some [] else (ds.splitOn ",").mapM parseDgram
+      some (ran, sent)
+  | _ => none
+
+/-- Distribute what a group of simultaneous copies was seen to cause over the single arrivals (glue:
+    any inconsistency of the group ends up in some arrival and is judged there). -/
+def distribute (t dur0 : Nat) (typs : List RType) (mid : Nat) (tok : List UInt8) (beh : Beh)
+    (ran : List Nat) (sent : List Dgram) : List Obs :=
+  let nested := sent.filter (fun d => d.tok == nestedTok tok)
+  let reps0 := sent.filter (fun d => d.tok != nestedTok tok)
+  let reps := reps0.filter (fun d => d.mid != mid) ++ reps0.filter (fun d => d.mid == mid)
+  let n := typs.length
+  let rec go (i : Nat) (typs : List RType) (ran : List Nat) (nested reps : List Dgram) : List Obs :=
+    match typs with
+    | [] => []
+    | ty :: rest =>
+      let last := rest.isEmpty
+      let (r, ran') := if last then (ran, []) else (ran.take 1, ran.drop 1)
+      let (ne, nested') := if last then (nested, []) else if r.isEmpty then ([], nested) else (nested.take 1, nested.drop 1)
+      let (rp, reps') := if last then (reps, []) else (reps.take 1, reps.drop 1)
+      ⟨if i = 0 then t else t + dur0, if i = 0 then dur0 else 0, ty, mid, tok, beh, r, ne ++ rp⟩ :: go (i + 1) rest ran' nested' reps'
+  let _ := n
+  go 0 typs (sortBy (fun a b => a < b) ran) nested reps
+
+/-- History (in arrival order) of a scenario and the observed segments. -/
+def history (ops : List Op) (segs : List (List Nat × List Dgram)) : List Obs :=
+  let (_, h) := (ops.zip segs).foldl (fun (acc : Nat × List Obs) (p : Op × (List Nat × List Dgram)) =>
+    let (now, h) := acc
+    let (ran, sent) := p.2
+    match p.1 with
+    | .recv t m tok b => (now, h ++ [⟨now, 0, t, m, tok, b, ran, sent⟩])
+    | .par k t m tok b => (now, h ++ distribute now 0 (List.replicate k t) m tok b ran sent)
+    | .blk t m tok d k dt => (now + d, h ++ distribute now d (t :: List.replicate k dt) m tok .blk ran sent)
+    | .sleep d => (now + d, h)
+    | _ => (now, h)) (0, [])
+  h
+
+def fmtVerdict : Verdict → String
+  | .ok => "ok" | .rehandled => "rehandled" | .wrongReply => "wrong-reply" | .notFresh => "not-fresh"
+
+def judgeLine (line : String) : String :=
+  match line.splitOn " || " with
+  | [inp, obs] =>
+    match parseOps inp, (obs.splitOn " | ").mapM parseSeg with
+    | some ops, some segs =>
+      if ops.length != segs.length then "violates unparsable-observation" else
+      let h := history ops segs
+      match judge h with
+      | .ok => "ok"
+      | v =>
+        -- first arrival at which the history stops conforming
+        let k := (List.range (h.length + 1)).find? (fun k => judge (h.take k) != .ok)
+        match k with
+        | some k =>
+          match (h.take k).getLast? with
+          | some o => s!"violates {fmtVerdict v} arrival={k} mid={o.mid} t={o.t}"
+          | none => s!"violates {fmtVerdict v}"
+        | none => s!"violates {fmtVerdict v}"
+    | _, _ => "violates unparsable-observation"
+  | _ => "bad-op"
+
+end Driver.C05
+
+def main (args : List String) : IO UInt32 := do
+  let stdin ← IO.getStdin
+  let stdout ← IO.getStdout
+  match args with
+  | ["model"] => Driver.forLines stdin fun l => stdout.putStrLn (Driver.C05.model l)
+  | ["judge"] => Driver.forLines stdin fun l => stdout.putStrLn (Driver.C05.judgeLine l)
+  | _ => IO.eprintln "usage: drv_c05 model|judge"; return 2
+  stdout.flush
+  return 0
